@@ -111,8 +111,8 @@ package extendeddaemonset
 //@   logs
 //@   requires r != nil && rsList != nil && r.client != nil
 //@   modifies nothing
-//@   ensures [C07,C13] only-deletes-list-elements: forall k int :: lognew(k) ==> logverb(k) == "Delete" && logobj(k) != nil && root(logobj(k)) == root(rsList.Items)
-//@   ensures [C07,C13] spares-replica-sets-in-use: forall k int, i int :: lognew(k) && 0 <= i && i < len(rsList.Items) && logobj(k) == &rsList.Items[i] ==>
+//@   ensures [C07,C11,C13] only-deletes-list-elements: forall k int :: lognew(k) ==> logverb(k) == "Delete" && logobj(k) != nil && root(logobj(k)) == root(rsList.Items)
+//@   ensures [C07,C11,C13] spares-replica-sets-in-use: forall k int, i int :: lognew(k) && 0 <= i && i < len(rsList.Items) && logobj(k) == &rsList.Items[i] ==>
 //@             current != nil && rsList.Items[i].ObjectMeta.Name != current.ObjectMeta.Name
 //@             && (upToDate == nil || rsList.Items[i].ObjectMeta.Name != upToDate.ObjectMeta.Name)
 //@             && shouldDeleteERS(now, &rsList.Items[i])
@@ -152,7 +152,7 @@ package extendeddaemonset
 //@   ensures [C07,C11] writes-are-status-then-spec: forall k int :: lognew(k) ==> (logverb(k) == "StatusUpdate" || logverb(k) == "Update" || logverb(k) == "List")
 //@   ensures [C07,C11] spec-write-directly-follows-status-write: forall k int :: lognew(k) && logverb(k) == "Update" ==>
 //@             old(loglen()) < k && logverb(k - 1) == "StatusUpdate" && logobj(k - 1) == logobj(k)
-//@   ensures [C07] rollback-status: failed ==> forall k int :: lognew(k) && logverb(k) == "StatusUpdate" ==>
+//@   ensures [C07,C11] rollback-status: failed ==> forall k int :: lognew(k) && logverb(k) == "StatusUpdate" ==>
 //@             cast(logobj(k), "*v1.ExtendedDaemonSet").Status.Canary == nil
 //@             && cast(logobj(k), "*v1.ExtendedDaemonSet").Status.State == "Canary Failed"
 //@             && cast(logobj(k), "*v1.ExtendedDaemonSet").Status.ActiveReplicaSet == current.ObjectMeta.Name
